@@ -19,7 +19,7 @@ RULE = ('Hypothesis draws (T, v) and two construction histories h1, h2 of v, eac
         'different objects) interleaved anywhere. Oracle: der(h1) == der(h2) and cer(h1) == cer(h2) byte for byte; '
         'der(decode(der(h1))) == der(h1) and the same for CER. Non-trivial = the two histories differ as programs and T has a '
         'record with >= 2 components, a DEFAULT, or a SET OF with >= 2 members; distinct = distinct (T, v, h1, h2).')
-RULE += (' ' + 'Also: the class-wide binEncBase preference on REAL leaves; a directed SET whose order depends on an alternative selected two CHOICE levels down.')
+RULE += (' ' + 'Also: the class-wide binEncBase preference on REAL leaves; a directed SET whose order depends on an alternative selected two CHOICE levels down. Also: operators and conversions of scalar objects (concatenation with bytes, slicing, arithmetic, hash, comparison) as read-only uses, and REAL leaves built from unnormalised mantissas (up to 64 trailing zeros / zero bits moved out of the exponent).')
 ASSUMPTIONS = ['a history step "decode a BER variant" is used only when the decoded object has the intended abstract value '
                '(otherwise the case belongs to C09)']
 SHARDS = {'quick': (16, 150), 'thorough': (16, 4000)}
